@@ -51,7 +51,7 @@ def check(ctx, lib, c):
         pat = k["pattern"]
         l = h["l"]
         msg = conv.fq12_b(F.flat_to_tower(PR.gt_pow_gen(c["seed"] + 11)))
-        lib.set_random(c["stream"], c["seed"])
+        s_enc = W.sampled_exponent(c["stream"], c["seed"])     # what the first encryption below draws from its random source
         fixed = fixed_of(pat)
         probe = c["probe"]
         slot = c["slot"] % l
@@ -74,6 +74,9 @@ def check(ctx, lib, c):
                     entries[i] += R
             ent = sorted(entries.items())
             ct = W.encrypt(msg, ex.params, Attrs(ent))
+            # the ciphertext binds message, attribute product and the drawn exponent exactly (mechanism of C12)
+            bad = W.ct_mismatch(ct, W.params_view(ex.params), ent, msg, s_enc)
+            expect(bad is None, "encrypt/component-" + str(bad), lambda: "ciphertext.%s is not the value determined by the list %r, the message and the exponent drawn from the random source" % (bad, ent))
             same = effective(ent, l) == key_eff
             got = W.decrypt(ct, sk=k["h"])
             ctx.count(c, not same or probe == "equiv_mod_r", "probe-%s:%s" % (probe, "match" if same else "differ"))
